@@ -3,10 +3,13 @@ package c08
 import (
 	"fmt"
 	"sync"
+	"sync/atomic"
 	"time"
 
 	"github.com/openconfig/gribigo/rib"
 	"github.com/openconfig/gribigo/server"
+	"google.golang.org/grpc/codes"
+	"google.golang.org/grpc/status"
 
 	aftpb "github.com/openconfig/gribi/v1/proto/gribi_aft"
 	spb "github.com/openconfig/gribi/v1/proto/service"
@@ -171,3 +174,127 @@ func indexOf(xs []string, s string) int {
 	}
 	return 0
 }
+
+// electionRace: two sessions win the election in turn with rising ids, in quick succession,
+// WHILE four goroutines send Flush requests that carry an id read a moment earlier (the
+// election's yield points are perturbed). A Flush is authorised only with an id not lower
+// than the highest id the server has learnt: a Flush that was ISSUED after an election
+// with a higher id had been answered must be rejected (FAILED_PRECONDITION), during the
+// run and - most of all - once everything is quiet.
+func electionRace(run *ev.Run) {
+	n := run.Pick(60, 1500)
+	y := mon.NewYielder(run.Seed+13, 2, 20)
+	server.VerifSetPoint(y.Point)
+	defer server.VerifSetPoint(nil)
+	ev.Parallel(n, ev.Workers(), func(i int) {
+		caseID := fmt.Sprintf("election-vs-flush-%d", i)
+		if !run.Want(caseID) {
+			return
+		}
+		r := run.Rand(caseID)
+		srv, err := drv.NewServer([]string{"VRF1"})
+		if err != nil {
+			run.Fatal(err.Error())
+			return
+		}
+		a := &drv.Session{Stream: drv.OpenModify(srv), Name: "A", DefaultNI: "DEFAULT"}
+		if _, err := a.Params(drv.SinglePrimary(false)); err != nil {
+			run.Fatal(caseID + ": " + err.Error())
+			return
+		}
+		b := &drv.Session{Stream: drv.OpenModify(srv), Name: "B", DefaultNI: "DEFAULT"}
+		if _, err := b.Params(drv.SinglePrimary(false)); err != nil {
+			run.Fatal(caseID + ": " + err.Error())
+			return
+		}
+		defer a.CloseSend()
+		defer b.CloseSend()
+		hi := uint64(r.Intn(3))
+		var answered atomicU64 // low word of the highest id whose election was answered
+		var mu sync.Mutex
+		var probs []string
+		stop := make(chan struct{})
+		var wg sync.WaitGroup
+		nFlush := 0
+		for f := 0; f < 4; f++ {
+			wg.Add(1)
+			go func(f int) {
+				defer wg.Done()
+				for {
+					select {
+					case <-stop:
+						return
+					default:
+					}
+					known := answered.Load() // read BEFORE the Flush is issued
+					if known < 3 {
+						continue
+					}
+					id := known - 1 - uint64(f%2)
+					_, err, wd := drv.Flush(srv, &spb.FlushRequest{NetworkInstance: &spb.FlushRequest_Name{Name: "VRF1"}, Election: &spb.FlushRequest_Id{Id: &spb.Uint128{High: hi, Low: id}}})
+					mu.Lock()
+					nFlush++
+					if wd != nil {
+						probs = append(probs, "INCONCLUSIVE|a Flush did not return within the watchdog")
+					} else if err == nil {
+						probs = append(probs, fmt.Sprintf("flush-accepted-but-must-be-rejected:lower-id-during-elections|a Flush with id (%d,%d) was answered OK although the election with id (%d,%d) had been answered before the Flush was issued", hi, id, hi, known))
+					}
+					stopNow := len(probs) > 0
+					mu.Unlock()
+					if stopNow {
+						return
+					}
+				}
+			}(f)
+		}
+		rounds := 30 + r.Intn(60)
+		for k := 1; k <= rounds; k++ {
+			s := a
+			if k%2 == 0 {
+				s = b
+			}
+			id := &spb.Uint128{High: hi, Low: uint64(k + 1)}
+			rep, err := s.Elect(id)
+			if err != nil || rep.GetLow() != id.Low || rep.GetHigh() != id.High {
+				mu.Lock()
+				if err == drv.ErrWatchdog {
+					probs = append(probs, "INCONCLUSIVE|an announcement was not answered within the watchdog")
+				} else {
+					probs = append(probs, fmt.Sprintf("election-response-not-running-max|%s announced %s and got %v %v", s.Name, mon.IDStr(id), rep, err))
+				}
+				mu.Unlock()
+				break
+			}
+			answered.Store(id.Low)
+			mu.Lock()
+			bad := len(probs) > 0
+			mu.Unlock()
+			if bad {
+				break
+			}
+		}
+		close(stop)
+		wg.Wait()
+		if len(probs) == 0 {
+			max := answered.Load()
+			if _, err, _ := drv.Flush(srv, &spb.FlushRequest{NetworkInstance: &spb.FlushRequest_Name{Name: "VRF1"}, Election: &spb.FlushRequest_Id{Id: &spb.Uint128{High: hi, Low: max - 1}}}); err == nil {
+				probs = append(probs, fmt.Sprintf("flush-accepted-but-must-be-rejected:lower-id-at-quiescence|after %d elections (highest id (%d,%d)) a Flush with id (%d,%d) is answered OK", rounds, hi, max, hi, max-1))
+			} else if status.Code(err) != codes.FailedPrecondition {
+				probs = append(probs, fmt.Sprintf("flush-wrong-status:lower-id-at-quiescence:%s|%v", status.Code(err), err))
+			}
+			if _, err, _ := drv.Flush(srv, &spb.FlushRequest{NetworkInstance: &spb.FlushRequest_Name{Name: "VRF1"}, Election: &spb.FlushRequest_Id{Id: &spb.Uint128{High: hi, Low: max}}}); err != nil {
+				probs = append(probs, fmt.Sprintf("flush-rejected-but-must-be-accepted:equal-id-at-quiescence|%v", err))
+			}
+		}
+		mon.Report(run, caseID, []string{fmt.Sprintf("%d elections won in turn by two sessions with ids (%d,2..%d), %d Flush requests with a lower id raced with them", rounds, hi, rounds+1, nFlush)}, probs)
+		run.Eval(1)
+		run.Count("elections_raced_by_flushes", int64(rounds))
+		run.Count("flushes_with_a_lower_id_during_elections", int64(nFlush))
+		run.Distinct(caseID)
+	})
+}
+
+type atomicU64 struct{ v atomic.Uint64 }
+
+func (a *atomicU64) Load() uint64   { return a.v.Load() }
+func (a *atomicU64) Store(x uint64) { a.v.Store(x) }
